@@ -12,7 +12,7 @@ def sh(cmd, **kw):
 
 
 def main():
-    names = sys.argv[1:] or sorted(os.listdir(SEEDED))
+    names = sys.argv[1:] or sorted(n for n in os.listdir(SEEDED) if os.path.isdir(os.path.join(SEEDED, n)))
     assert sh('git -C /repo status --porcelain').stdout.strip() == '', 'repo not clean'
     for name in names:
         d = os.path.join(SEEDED, name)
